@@ -134,6 +134,18 @@ RoundTripClauses(So, R, sel) ==
           "RoundTripTrees")
 
 (***************************************************************************)
+(* any command from two working directories under the same root (C17):     *)
+(* R = observation from the project root, X = from another directory;      *)
+(* locs = reported locations resolved against the respective cwd           *)
+(***************************************************************************)
+CwdClauses(R, X) ==
+        V(X.exit = R.exit, "CwdSameExit")
+   \cup V(X.after = R.after, "CwdSameEffects")
+   \cup V(X.locs = R.locs, "CwdSameLocations")
+(* from a directory of a NESTED project (own cond_config.toml) the outer project is not touched *)
+NestedClauses(B, A) == V(A = B, "NearestRootWins")
+
+(***************************************************************************)
 (* clean, where                                                            *)
 (***************************************************************************)
 CleanClauses(B, A) == V(OutsideUntouched(B, A), "OutsideUntouched")
